@@ -1,9 +1,11 @@
 #!/bin/bash
 # usage: try_seed.sh <patch.diff> <PROP> [tier]  -- applies the patch to /repo, runs the check, reverts.
+# The evidence file written by the mutant run is restored from git afterwards (evidence must describe the unchanged tree).
 P=$1; ID=$2; TIER=${3:-quick}
 cd /repo || exit 2
 if ! git diff --quiet; then echo "/repo dirty"; exit 2; fi
 git apply "$P" || { echo "PATCH DOES NOT APPLY"; exit 3; }
 cd /verif && ./check $ID --tier $TIER | cut -c1-600; rc=${PIPESTATUS[0]}
-git -C /repo checkout -- . 
+git -C /repo checkout -- .
+git -C /verif checkout -- evidence/$ID.json 2>/dev/null
 echo "check exit=$rc"
